@@ -404,6 +404,9 @@ func cmdRepro(args []string) int {
 	if strings.Contains(args[0], "/C17-") {
 		return reproC17(args[0])
 	}
+	if strings.Contains(args[0], "/C13-") {
+		return reproC13(args[0])
+	}
 	var rf ReplayFile
 	if err := LoadJSONFile(args[0], &rf); err != nil {
 		fmt.Fprintln(os.Stderr, "repro:", err)
